@@ -319,19 +319,37 @@ func (c *c05) Step(w *sim.World, s *sim.Step) *Viol {
 				return viol("C05", s.Idx, "transfer/burn request outside a deposit: "+s.Op.Label, "none", fmt.Sprint(calls[ci]))
 			}
 		}
-		// only the depositors are debited, by exactly the amount
+		// only the depositors are debited, by exactly the amount; credits come from effective mints only
 		if s.Single {
 			pre, post := balancesOf(s.PreLed), balancesOf(s.PostLed)
-			for k, a := range pre {
-				b := orZeroInt(post[k])
-				dec := new(big.Int).Sub(a, b)
-				want := orZeroInt(debits[k])
-				if dec.Sign() > 0 && dec.Cmp(want) != 0 {
-					return viol("C05", s.Idx, "balance decrease of "+k, want, dec)
+			want := map[string]*big.Int{}
+			for k, a := range debits {
+				want[k] = new(big.Int).Neg(a)
+			}
+			for _, cl := range effective(s.Calls, "mint") {
+				if to, err := sdk.AccAddressFromBech32(cl.To); err == nil {
+					k := fmt.Sprintf("%x/%s", []byte(to), w.Model.L.NDenom())
+					a, _ := new(big.Int).SetString(cl.Amount, 10)
+					if want[k] == nil {
+						want[k] = new(big.Int)
+					}
+					want[k].Add(want[k], a)
 				}
-				if dec.Sign() <= 0 && want.Sign() > 0 && !strings.HasPrefix(k, fmt.Sprintf("%x/", sim.ModuleAddrBytes())) {
-					// a depositor who is also minted to in the same tx is impossible here (single message kinds)
-					return viol("C05", s.Idx, "depositor "+k+" was not debited", want, dec)
+			}
+			keys := map[string]bool{}
+			for k := range pre {
+				keys[k] = true
+			}
+			for k := range post {
+				keys[k] = true
+			}
+			for k := range want {
+				keys[k] = true
+			}
+			for _, k := range sortedKeys(keys) {
+				delta := new(big.Int).Sub(orZeroInt(post[k]), orZeroInt(pre[k]))
+				if delta.Cmp(orZeroInt(want[k])) != 0 {
+					return viol("C05", s.Idx, "balance change of "+k+" (debits of its deposits, credits of mints to it)", orZeroInt(want[k]), delta)
 				}
 			}
 		}
